@@ -55,25 +55,24 @@ for d in sorted(glob.glob(os.path.join(ROOT, "seeded", "*"))):
         cs = str(checks)[:80]
     out.append("| %s | %s | %s | %s / %s | %s |" % (name, meta.get("property", ""), str(meta.get("needs", ""))[:260].replace("|", "\\|").replace("\n", " "),
                                                  conf.get("tests_pass"), conf.get("demo_ok"), cs))
-out.append("\n### 11.7 Mutation sweep (mutants written by the harness authors)\n")
-out.append("First line of each `mutants/<ID>/*.patch` records the outcome when it was last run through the quick tier.\n")
-out.append("| property | mutants | caught | harmless / equivalent (stay green) | missed |\n|---|---|---|---|---|")
-for d in sorted(glob.glob(os.path.join(ROOT, "mutants", "C*"))):
-    pid = os.path.basename(d)
-    n = c = h = m = 0
-    missed = []
-    for f in sorted(glob.glob(os.path.join(d, "*.patch"))):
-        n += 1
-        first = open(f, errors="replace").readline().lower()
-        base = os.path.basename(f).lower()
-        if "harmless" in first or "equivalent" in first or "stays green" in first or "harmless" in base:
-            h += 1
-        elif "missed" in first and "caught" not in first:
-            m += 1
-            missed.append(os.path.basename(f))
-        else:
-            c += 1
-    out.append("| %s | %d | %d | %d | %s |" % (pid, n, c, h, ", ".join(missed) if missed else "0"))
+out.append("\n### 11.7 Mutation sweep (mutants written by the harness authors, re-run at the final tree)\n")
+try:
+    rep = json.load(open(os.path.join(ROOT, "mutation_report.json")))
+    out.append("`tools/mutation_sweep` applied every `mutants/<ID>/*.patch` to a scratch copy of the include tree and ran the "
+               "quick tier of its property (seed %s, /repo at %s): %d mutants, %d caught, %d expected to stay green (harmless / "
+               "equivalent mutants, and mutants that make the library loop forever, for which the watchdog gives no verdict) "
+               "and green, not as expected: %s. Reverted `fix:` commits are among the mutants.\n" % (
+                   rep.get("seed"), rep.get("repo_head"), rep["summary"]["mutants"], rep["summary"]["caught"],
+                   rep["summary"]["expected_green_and_green"], rep["summary"]["not_as_expected"] or "none"))
+    out.append("| property | mutants | caught | expected green, green | not as expected |\n|---|---|---|---|---|")
+    props = sorted({r["property"] for r in rep["results"]})
+    for pid in props:
+        rs = [r for r in rep["results"] if r["property"] == pid]
+        out.append("| %s | %d | %d | %d | %s |" % (pid, len(rs), sum(1 for r in rs if r["status"] == "caught"),
+                   sum(1 for r in rs if r["expected"] == "green" and r["status"] == "missed"),
+                   ", ".join(r["mutant"] for r in rs if not r["as_expected"]) or "0"))
+except Exception as e:
+    out.append("(mutation_report.json not available: %s)" % e)
 text = "\n".join(out) + "\n"
 p = os.path.join(ROOT, "DESIGN.md")
 s = open(p).read()
